@@ -51,8 +51,8 @@ CHECKS = {
         text="Seeded search over handler call sequences on the async read interfaces (poll_read with buffers of 0..70000 bytes, poll_fill_buf+consume(k), set_stream, writeable()), transport read patterns and write-side readiness, with management records arriving mid-stream; bytes received per stream compared with M-stream (prefix; equality and sticky end-of-file once end-of-file was seen), is_writeable() sampled after every poll against the model's gating condition, output_stream()/set_stream() rejections probed under catch_unwind.",
         note="Trusted: M-stream, M-conn. Compliant client.",
         technique=TECH + ": deterministic executor + simulated transport, handler-visible reads vs. reference model"),
-    "C10": dict(engine="D2", cat="exploration", ref="DESIGN.md 4/C10",
-        text="1..3 writers on separately woken sub-futures plus a reader sub-future, seeded poll order, write sizes incl. 0/65535/65536+, flushes, a transport cutting every vectored write anywhere (inside the header, at the seam, inside padding) or returning Pending: the transport log must decode into complete records which, in completion order, equal the successful writes (type, id, payload, padding rule), with management replies as whole records. Writes are sometimes re-polled with a longer buffer than the one that set the record up, and a third of the runs inject one transient write error after which the writers retry (documented: the lock is kept and the record continued).",
+    "C10": dict(engine="D2+D5", cat="exploration", ref="DESIGN.md 4/C10",
+        text="1..3 writers on separately woken sub-futures plus a reader sub-future, seeded poll order, write sizes incl. 0/65535/65536+, flushes, a transport cutting every vectored write anywhere (inside the header, at the seam, inside padding) or returning Pending: the transport log must decode into complete records which, in completion order, equal the successful writes (type, id, payload, padding rule), with management replies as whole records. Writes are sometimes re-polled with a longer buffer than the one that set the record up, and a third of the runs inject one transient write error after which the writers retry (documented: the lock is kept and the record continued). Extra: 2..3 writers on different OS threads (strict poll-when-woken loops) under Miri's seeded scheduler, 32 / 2048 schedules, log decoded the same way.",
         note="Trusted: wire decoder; completion order equals lock-release order in a single-threaded executor.",
         technique=TECH + ": deterministic executor with per-sub-future wakers + write-cutting transport, log decoded and compared"),
     "C11": dict(engine="D1+D2", cat="exploration", ref="DESIGN.md 4/C11",
@@ -119,7 +119,7 @@ def main():
             {"name": "D1", "path": "sim/src/d1req.rs, sim/src/d1stream.rs", "serves_properties": ["C01", "C02", "C03", "C04", "C05", "C06", "C11", "C18"], "kind_free_text": "caller-schedule simulator for the sync parsers: one seeded choice sequence decides traffic, segmentation, read chunking and caller actions; reference models M-preamble/M-stream as oracles"},
             {"name": "D2", "path": "sim/src/exec.rs, sim/src/d2*.rs", "serves_properties": ["C07", "C08", "C09", "C10", "C11", "C12", "C13", "C14"], "kind_free_text": "single-threaded deterministic executor (strict wake-only polling) + simulated AsyncRead/AsyncWrite transport with short reads/writes, Pending, EOF and error injection + open/closed-loop peer model + scripted handlers"},
             {"name": "D3", "path": "sim/src/d3.rs", "serves_properties": ["C13", "C14"], "kind_free_text": "serialising thread scheduler: real threads, one baton, seeded choice of the next holder at harness operations, waker callbacks and verif-hooks scheduling points"},
-            {"name": "D5", "path": "miri/src/main.rs, sim/src/miri.rs", "serves_properties": ["C13", "C14"], "kind_free_text": "Miri interpreter as a second thread simulator: a small program on real std threads using the real library, one exactly repeatable schedule per seed (-Zmiri-many-seeds, two preemption rates), preemption anywhere incl. inside async-lock / event-listener under their locks; replay = the seed"},
+            {"name": "D5", "path": "miri/src/main.rs, sim/src/miri.rs", "serves_properties": ["C10", "C13", "C14"], "kind_free_text": "Miri interpreter as a second thread simulator: a small program on real std threads using the real library, one exactly repeatable schedule per seed (-Zmiri-many-seeds, two preemption rates), preemption anywhere incl. inside async-lock / event-listener under their locks; replay = the seed"},
             {"name": "D4", "path": "sim/src/d4.rs", "serves_properties": ["C20"], "kind_free_text": "fault-injecting io::Write sink: short writes, Interrupted, capacity exhaustion at every byte"},
         ],
         "checks": checks,
